@@ -276,7 +276,12 @@ Definition pair_consistent L s (p : addr) : bool :=
   forallb (fun i => s_pair L s p (1 + i) =? s_pair L s p (16 + i)) [0; 1; 2; 3] &&
   (s_pair L s p 5 =? s_pair L s p 20) && (s_pair L s p 6 =? s_pair L s p 21) &&
   (s_pair L s p 8 =? s_pair L s p 22) && (s_pair L s p 9 =? s_pair L s p 23) &&
-  (s_pair L s p 10 =? s_pair L s p 24) && (s_pair L s p 11 =? s_pair L s p 25) && (s_pair L s p 12 =? s_pair L s p 26).
+  (s_pair L s p 10 =? s_pair L s p 24) && (s_pair L s p 11 =? s_pair L s p 25) && (s_pair L s p 12 =? s_pair L s p 26) &&
+  (* looking the pair up with its assets in the other order returns the same record, assets and decimals
+     in the pair's own order *)
+  (s_pair L s p 27 =? 1) && (s_pair L s p 28 =? p) &&
+  forallb (fun i => s_pair L s p (1 + i) =? s_pair L s p (29 + i)) [0; 1; 2; 3] &&
+  (s_pair L s p 5 =? s_pair L s p 33) && (s_pair L s p 6 =? s_pair L s p 34).
 Definition decimals_true L s (p : addr) : bool :=
   forallb (fun i => match s_pair_asset L s p i with
                     | ANative d => s_native L s d =? s_pair L s p (5 + i) + 1
